@@ -232,6 +232,14 @@ EscCps(cp) == IF Len(cp) = 0 THEN <<>>
 \* strconv.Quote on printable text: only " \ newline and tab are escaped
 QuoteCps(cp) == <<34>> \o EscCps(cp) \o <<34>>
 
+\* identifiers (spec.md): LETTER { LETTER | DIGIT }; letters of the model alphabet:
+\* ASCII letters, underscore and the Latin-1 letters; everything else is not a letter
+IsLetterC(c) == (c >= 97 /\ c <= 122) \/ (c >= 65 /\ c <= 90) \/ c = 95 \/ (c >= 192 /\ c <= 255 /\ c # 215 /\ c # 247)
+IsDigit09(c) == c >= 48 /\ c <= 57
+IsIdentCps(cp) == Len(cp) > 0 /\ IsLetterC(cp[1]) /\ \A i \in DOMAIN cp : IsLetterC(cp[i]) \/ IsDigit09(cp[i])
+\* builtins.md repr: keys without quotes if they are valid identifiers, quoted otherwise
+KeyCps(k, q) == IF q /\ ~IsIdentCps(k) THEN QuoteCps(k) ELSE k
+
 RECURSIVE ValCps(_, _, _)
 \* text of a value as print/sprint/join show it; q = TRUE gives repr (quoted strings)
 \* strings inside repr: only characters that need no escaping are generated by the families
@@ -243,7 +251,7 @@ ValCps(v, heap, q) ==
     [] v.t = "arr"  -> LET el == heap[v.a].el
                        IN <<91>> \o JoinCps([i \in DOMAIN el |-> ValCps(el[i], heap, q)], <<SP>>) \o <<93>>
     [] v.t = "map"  -> LET o == heap[v.a]
-                       IN <<123>> \o JoinCps([i \in DOMAIN o.ks |-> o.ks[i] \o <<58>> \o ValCps(o.el[i], heap, q)], <<SP>>) \o <<125>>
+                       IN <<123>> \o JoinCps([i \in DOMAIN o.ks |-> KeyCps(o.ks[i], q) \o <<58>> \o ValCps(o.el[i], heap, q)], <<SP>>) \o <<125>>
     [] OTHER        -> <<>>
 
 RECURSIVE ValPrintable(_, _)
